@@ -210,7 +210,7 @@ def augment_with_impl(text, impl_out):
             continue
         if p[0] in producing or (p[0] not in NONPRODUCING):
             key = "%s.%d" % (case, n)
-            if p[0] == "call" and key in outs:
+            if p[0] in ("call", "geo") and key in outs:
                 res.append("impl " + " ".join(outs[key]))
             n += 1
         res.append(line)
